@@ -606,7 +606,81 @@ def plan_script(run, prop, tier):
     return acc
 
 
+def plan_c09(run, prop, tier):
+    """C09: Image.tla states the crash model and checks the layout argument (a schema-driven decoder rejects every strict
+    prefix of every encoding); the crash point is then enumerated COMPLETELY on real images: every k < file length."""
+    acc = Acc()
+    r = vlib.tlc(run, "Image", "INIT Init\nNEXT Next\nCONSTANT Size = 6\nPROPERTY NeverHalfLoaded\nCHECK_DEADLOCK FALSE\n", workers=2, timeout=600)
+    import re as _re
+    m = _re.search(r'<<"IMAGE-LAYOUT", (TRUE|FALSE), (\d+)>>', r["out"])
+    if not m or m.group(1) != "TRUE" or "No error has been found" not in r["out"]:
+        raise ToolError("Image.tla: the layout argument or the crash model fails on the model\n" + r["out"][-2000:])
+    acc.e1.append({"model": "Image.tla: PrefixRejected over the value universe + crash model NeverHalfLoaded", "values": int(m.group(2)),
+                   "distinct_states": r["distinct"], "result": "no error"})
+    # real-limit graphs: recorded by the drivers, cut at every position as well
+    s = vlib.seed()
+    extra_plan = [dict(profile="mixed", n=16, cap=24, steps=160, seed=s * 100 + 41, window=16),
+                  dict(profile="big16", n=16, cap=24, steps=60, seed=s * 100 + 42, window=20),
+                  dict(profile="groups14", n=16, cap=40, steps=80, seed=s * 100 + 43, window=10)]
+    if tier == "thorough":
+        extra_plan += [dict(profile="mixed", n=16, cap=24, steps=60 + 40 * i, seed=s * 1000 + 400 + i, window=18) for i in range(10)]
+    tr = run.fresh("trace", ".ndjson")
+    vlib.sh([H, "drive", "--out", tr, "--scratch", run.dir, "--plan", json.dumps(extra_plan)], timeout=600)
+    traces = vlib.split_traces(tr)
+    extras = {}
+    for t, evs in traces.items():
+        if t == 0:
+            continue
+        meta = extra_plan[t - 1]
+        extras.setdefault((meta["n"], meta["cap"]), []).append({"calls": calls_of_trace(evs)})
+    jobs = [("A3", 2, 3, 0, 120), ("C2", 2, 4, 1, 120), ("D3", 1, 3, 2, 80), ("F4a", 1, 5, 1, 80)]
+    if tier == "thorough":
+        jobs = [("A3", 2, 3, 0, 1500), ("A3", 16, 8, 1, 600), ("C2", 2, 4, 1, 1000), ("D3", 1, 3, 2, 800), ("F4a", 1, 5, 1, 800), ("F5", 1, 6, 2, 600), ("B3", 1, 3, 1, 600)]
+    total_loads = 0
+    total_images = 0
+    for inst, n, cap, tok, maxi in jobs:
+        ts, _ = vlib.emit_ts(run, emit_module(inst), cfg_emit(inst, ()))
+        j = vlib.truncate_run(run, ts, TOKENS[tok], n, cap, maxi)
+        _c09_account(run, acc, j, f"instance {inst}")
+        total_loads += j["loads"]
+        total_images += j["images"]
+    ts, _ = vlib.emit_ts(run, emit_module("C2"), cfg_emit("C2", ()))
+    for (n, cap), ex in extras.items():
+        j = vlib.truncate_run(run, ts, TOKENS[0], n, cap, 1, extra_calls=ex)
+        _c09_account(run, acc, j, "real-limit graphs from recorded traces")
+        total_loads += j["loads"]
+        total_images += j["images"]
+    if total_loads == 0:
+        raise ToolError("vacuity: no truncated image was loaded")
+    acc.notes.update({"evaluations": total_loads, "distinct_nontrivial": total_images,
+                      "rule": "one evaluation = load() of one strict prefix of one image; images are distinct byte strings (deduplicated), "
+                              "written by save() over a longer earlier image of the same path; EVERY cut position 0 <= k < file length is tried "
+                              "for each image (the crash point is enumerated completely per image); distinct_nontrivial counts distinct images",
+                      "exhaustive": False, "cut_positions_per_image": "all"})
+    return acc
+
+
+def _c09_account(run, acc, j, what):
+    rec = {k: j[k] for k in ("n", "cap", "images", "loads", "bytes_total", "failures", "min_image", "max_image")}
+    rec["graphs"] = what
+    acc.e2.append(rec)
+    acc.states += j["images"]
+    acc.transitions += j["loads"]
+    if j["samples"]:
+        acc.samples.append(j["samples"][0])
+    if j["witnesses"]:
+        v = vlib.judge(run, j["witness_file"], j["n"])
+        acc.traces += len(j["witnesses"])
+        wit = {w["t"]: w for w in j["witnesses"]}
+        for (t, line, prop_, what_) in v["fails"]:
+            w = wit.get(t)
+            acc.fails.append({"prop": prop_, "what": what_ + (f" (cut at byte {w['observer_event']['k']} of {w['observer_event']['size']})" if w else ""),
+                              "source": f"fault enumeration, {what}, N={j['n']} cap={j['cap']}",
+                              "replay": {"n": j["n"], "cap": j["cap"], "calls": w["calls"], "cut": w["observer_event"]} if w else None, "sig": "truncload"})
+
+
 PLANS = {p: plan_gc for p in ("C01", "C02", "C03", "C04", "C06")}
+PLANS["C09"] = plan_c09
 PLANS["C14"] = plan_script
 PLANS["C18"] = plan_export
 PLANS["C20"] = plan_export
@@ -621,6 +695,7 @@ PLANS["C08"] = plan_twin
 PLANS["C10"] = plan_twin
 
 LEVEL = {p: "model_checking" for p in PLANS}
+LEVEL["C09"] = "fault_enumeration"
 
 ASSUME_COMMON = [
     "TLC 2 and the CommunityModules Json/IOUtils are correct",
